@@ -23,6 +23,30 @@ CLAIMS = {
             "hook list and callbacks are one-shot; resolve() is a latch; any_of/all_of index/count bookkeeping.",
             "Trusted: CPython generator protocol; that a pushed continuation is delivered once (C01).",
             "DESIGN.md §5 C02"),
+    "C03": ("whole-package source-provenance scan with forward taint to order/time/placement sinks + set-iteration consumer classification",
+            "Locates every process-dependent source (builtin hash, uuid/entropy, wall clock, id(), unseedable RNG) in the simulation-relevant "
+            "packages and follows it to order/time/placement sinks; classifies every iteration over a str-capable set by its consumer; checks "
+            "counter reset and active-context scoping. Decides that no such source can influence deliveries — not that seeded RNG streams repeat.",
+            "Trusted: stdlib random/numpy reproducibility under seeding; dict insertion order; the sink/source vocabularies of the rule pack.",
+            "DESIGN.md §5 C03"),
+    "C04": ("sibling agreement of the two event loops by core-effect skeleton per feasible path + observer purity + pause/step protocol path rules",
+            "The instrumented and fast loops are compared by their per-iteration core-effect sequences (after helper inlining, alias resolution, "
+            "observer deletion) and loop guards; every observer entry point and tracing block is shown effect-free on engine state; the "
+            "pause/step/breakpoint protocol and reset re-priming are decided on every path.",
+            "Trusted: classification of observer vs core statements in the rule pack; user callbacks are pure.",
+            "DESIGN.md §5 C04"),
+    "C05": ("path rules on router / barrier exchange (exactly-one-of), guard dominance of min-latency and window validation, barrier ordering dataflow",
+            "Necessary conditions of conservative synchronisation decided statically: window horizon, router exactly-one-of {local, outbox, error}, "
+            "exchange schedules each entry once after min-latency validation and clears the outbox, window <= min latency validated before build, "
+            "all partitions joined before exchange, per-partition clock/heap ownership.",
+            "Trusted: ThreadPoolExecutor semantics; user-declared links are truthful.",
+            "DESIGN.md §5 C05"),
+    "C07": ("suspension-aware reaching-definitions over every generator (stale time values / stale event objects) + zero-delay wait-loop detector",
+            "For every function of the simulation-relevant packages: no emission timestamp is a time value (or an event object stamped with one) "
+            "captured before a clock-advancing suspension and handed to the engine after it; no `now - x` timestamps; no wait loop whose only "
+            "suspensions are constant-zero delays. Decides these shapes on all paths; does not bound run-time delays.",
+            "Trusted: configured latencies are non-negative; zero-delay yields cannot advance the clock.",
+            "DESIGN.md §5 C07"),
 }
 
 NOT_YET = "rule pack not built yet in this session (see DESIGN.md §11); no check is claimed for it"
